@@ -513,4 +513,211 @@ theorem cond_clause_more_meaning {env l₁ rest l c test body clauses e} (hstd :
       ⟨fun htv v τ hb => Means.cond_true ht htv (rule σ₁ ρ v τ hb),
        fun htv v τ hrest => Means.cond_false ht htv hrest⟩⟩
 
+/-! ## case
+
+A clause is selected by the VALUE OF `(memv key '(datum …))` — the templates call whatever `memv` (and,
+for `=>` in a last clause, `null?` and `not`) is bound to; the rules below are parametric in those
+bindings and in the results of applying them, so they assume nothing about the library. With the standard
+`memv` of `(scheme base)` (`C11.memv_spec`) the value is the first sublist of the data whose `car` is
+`eqv?` to the key, `#f` if there is none: selection by membership (`meansApply_memv_std`). -/
+
+/-- the test `(memv key '(datum …))` -/
+theorem memv_test {env loc key atoms ce} (hstd : StdSyn env)
+    (hce : XE env (L loc [S loc "memv", key, L loc [S loc "quote", L loc atoms]]) ce) :
+    ∃ kee, XE env key kee ∧ ∀ σ ρ mv kv σ₁ qv σ₂ m τ, σ.lookup ρ "memv" = some mv → Means σ ρ kee kv σ₁ →
+      readLiteral σ₁ (L loc atoms) = (.ok qv, σ₂) → MeansApply σ₂ mv [kv, qv] m τ → Means σ ρ ce m τ := by
+  obtain ⟨fe, aes, lc, hfe, haes, rfl⟩ := hce.call_inv (isList_ofList _ _)
+    (by intro s l' hs; cases hs; exact ⟨by decide, hstd.memv⟩)
+  have := hfe.sym_inv; subst this
+  cases haes with
+  | cons hk t =>
+    cases t with
+    | cons hq t' =>
+      cases t'
+      obtain ⟨lq, rfl⟩ := hq.quote_inv (isList_ofList _ _) rfl
+      rename_i kee
+      refine ⟨kee, hk, fun σ ρ mv kv σ₁ qv σ₂ m τ hl hkv hlit happ => ?_⟩
+      have hq' := Means.quote (ρ := ρ) (l := lq) hlit
+      refine Means.call (Means.sym hl) (.cons (means_erase.mpr hkv) (MeansList.one hq')) ?_
+      exact meansApply_erase.mpr happ
+
+/-- the call `(receiver key)` the `=>` templates of `case` build -/
+theorem receiver_key_call {env loc r key ce} (hce : XE env (L loc [r, key]) ce) (hr : Ordinary env r) :
+    ∃ re kee, XE env r re ∧ XE env key kee ∧ ∀ σ ρ fv σ₁ kv σ₂ v τ, Means σ ρ re fv σ₁ → Means σ₁ ρ kee kv σ₂ →
+      MeansApply σ₂ fv [kv] v τ → Means σ ρ ce v τ := by
+  obtain ⟨re, aes, lc, hre, haes, rfl⟩ := hce.call_inv (isList_ofList _ _) hr
+  cases haes with
+  | cons hk t =>
+    cases t
+    rename_i kee
+    exact ⟨re, kee, hre, hk, fun σ ρ fv σ₁ kv σ₂ v τ hf hkv happ => Means.call hf (MeansList.one hkv) happ⟩
+
+/-- `(case (operator operand …) clause …)` — a key that is a (non-empty) list, i.e. a call: the key is
+evaluated EXACTLY ONCE, its value bound to `atom-key` in a fresh child frame, and the value is that of
+`(case atom-key clause …)` evaluated in that frame. -/
+theorem case_list_key_meaning {env l₁ rest l k keys clauses e} (hstd : StdSyn env)
+    (hu : IsList rest (k :: clauses)) (hk : IsList k keys) (hkn : keys ≠ []) (hcl : clauses ≠ [])
+    (hx : XE env (.pair (.sym "case" l₁) rest l) e) :
+    ∃ ke er, XE env (L l keys) ke ∧
+      XE env (.pair (.sym "case" l) (Datum.ofList none (S l "atom-key" :: clauses)) l) er ∧
+      ∀ σ ρ kv σ₁ v τ, Means σ ρ ke kv σ₁ →
+        Means (σ₁.pushFrame ρ [("atom-key", kv)]) σ₁.frames.size er v τ → Means σ ρ e v τ := by
+  have h₁ := hx.expand_inv hstd.std (by decide) (fun fuel hf =>
+    at_loc (case_list_key_shape (isList_withLoc l hu) hk hkn hcl hf))
+  obtain ⟨ke, er, la, lb, hke, her, rfl⟩ := XE.let1_inv hstd.std h₁
+  rw [built_eq] at her
+  exact ⟨ke, er, hke, her, fun σ ρ kv σ₁ v τ hk' hr' => Means.let1 hk' hr'⟩
+
+/-- `(case key (else => receiver))`: the receiver expression, then the key, then the application -/
+theorem case_else_arrow_meaning {env l₁ rest l key c el a r e} (hstd : StdSyn env) (hu : IsList rest [key, c])
+    (hc : IsList c [el, a, r]) (he : isSym "else" el = true) (ha : isSym "=>" a = true)
+    (hk : ∀ ks, IsList key ks → ks = []) (hr : Ordinary env r) (hx : XE env (.pair (.sym "case" l₁) rest l) e) :
+    ∃ re kee, XE env r re ∧ XE env key kee ∧ ∀ σ ρ fv σ₁ kv σ₂ v τ, Means σ ρ re fv σ₁ → Means σ₁ ρ kee kv σ₂ →
+      MeansApply σ₂ fv [kv] v τ → Means σ ρ e v τ :=
+  receiver_key_call (hx.expand_inv hstd.std (by decide) (fun fuel hf =>
+    at_loc (case_else_arrow_shape (isList_withLoc l hu) hc he ha hk hf))) hr
+
+/-- `(case key (else form₁ … formₙ))`: the forms in order (fresh empty child frame), value of the last;
+the key is not evaluated -/
+theorem case_else_meaning {env l₁ rest l key c el body e} (hstd : StdSyn env) (hu : IsList rest [key, c])
+    (hc : IsList c (el :: body)) (he : isSym "else" el = true) (hne : body ≠ [])
+    (hna : ∀ a r, body = [a, r] → isSym "=>" a = false) (hk : ∀ ks, IsList key ks → ks = [])
+    (hnd : NoDefs env body) (hx : XE env (.pair (.sym "case" l₁) rest l) e) :
+    ∃ bes, All2 (XE env) body bes ∧
+      ∀ σ ρ v τ, MeansSeq σ.frames.size (σ.pushFrame ρ []) bes v τ → Means σ ρ e v τ := by
+  have h₁ := hx.expand_inv hstd.std (by decide) (fun fuel hf =>
+    at_loc (case_else_shape (isList_withLoc l hu) hc he hne hna hk hf))
+  rw [built_eq] at h₁
+  exact begin_meaning hstd (isList_ofList none body) hne hnd h₁
+
+/-- `(case key ((datum …) form₁ … formₙ))`, the last clause: `memv`, the key (once), the quoted data,
+the application of `memv`; if its value `m` is not `#f` the forms in order, value of the last; otherwise
+NO form is evaluated and the model's value is `Void`. -/
+theorem case_clause_last_meaning {env l₁ rest l key c as atoms body e} (hstd : StdSyn env)
+    (hu : IsList rest [key, c]) (hc : IsList c (as :: body)) (has : IsList as atoms) (hat : atoms ≠ [])
+    (hne : body ≠ []) (hna : ∀ a r, body = [a, r] → isSym "=>" a = false)
+    (hk : ∀ ks, IsList key ks → ks = []) (hnd : NoDefs env body)
+    (hx : XE env (.pair (.sym "case" l₁) rest l) e) :
+    ∃ kee bes, XE env key kee ∧ All2 (XE env) body bes ∧
+      ∀ σ ρ mv kv σ₁ qv σ₂ m σ₃, σ.lookup ρ "memv" = some mv → Means σ ρ kee kv σ₁ →
+        readLiteral σ₁ (L l atoms) = (.ok qv, σ₂) → MeansApply σ₂ mv [kv, qv] m σ₃ →
+        (m.truthy = true → ∀ v τ, MeansSeq σ₃.frames.size (σ₃.pushFrame ρ []) bes v τ → Means σ ρ e v τ) ∧
+        (m.truthy = false → Means σ ρ e .void σ₃) := by
+  have h₁ := hx.expand_inv hstd.std (by decide) (fun fuel hf =>
+    at_loc (case_normal_shape (isList_withLoc l hu) hc has hat hne hna hk hf))
+  obtain ⟨te, ce, lc, hte, hce, hcase⟩ := h₁.if_inv (isList_ofList _ _) rfl
+  rcases hcase with ⟨_, rfl⟩ | ⟨_, _, _, hr', _⟩
+  · obtain ⟨kee, hkee, trule⟩ := memv_test hstd hte
+    rw [built_eq] at hce
+    obtain ⟨bes, hbes, rule⟩ := begin_meaning hstd (isList_ofList none body) hne hnd hce
+    exact ⟨kee, bes, hkee, hbes, fun σ ρ mv kv σ₁ qv σ₂ m σ₃ hl hkv hlit happ =>
+      have ht := trule σ ρ mv kv σ₁ qv σ₂ m σ₃ hl hkv hlit happ
+      ⟨fun hm v τ hb => Means.cond_true ht hm (rule σ₃ ρ v τ hb), fun hm => Means.cond_void ht hm⟩⟩
+  · cases hr'
+
+/-- `(case key ((datum …) form₁ … formₙ) clause₂ …)`: as above when `m` is not `#f`; when it is `#f` NO
+form is evaluated and the value is that of `(case key clause₂ …)` (same frame, store after the test). -/
+theorem case_clause_more_meaning {env l₁ rest l key c as atoms body clauses e} (hstd : StdSyn env)
+    (hu : IsList rest (key :: c :: clauses)) (hc : IsList c (as :: body)) (has : IsList as atoms)
+    (hat : atoms ≠ []) (hne : body ≠ []) (hcl : clauses ≠ [])
+    (hna : ∀ a r, body = [a, r] → isSym "=>" a = false) (hk : ∀ ks, IsList key ks → ks = [])
+    (hnd : NoDefs env body) (hx : XE env (.pair (.sym "case" l₁) rest l) e) :
+    ∃ kee bes er, XE env key kee ∧ All2 (XE env) body bes ∧
+      XE env (.pair (.sym "case" l) (Datum.ofList none (key :: clauses)) l) er ∧
+      ∀ σ ρ mv kv σ₁ qv σ₂ m σ₃, σ.lookup ρ "memv" = some mv → Means σ ρ kee kv σ₁ →
+        readLiteral σ₁ (L l atoms) = (.ok qv, σ₂) → MeansApply σ₂ mv [kv, qv] m σ₃ →
+        (m.truthy = true → ∀ v τ, MeansSeq σ₃.frames.size (σ₃.pushFrame ρ []) bes v τ → Means σ ρ e v τ) ∧
+        (m.truthy = false → ∀ v τ, Means σ₃ ρ er v τ → Means σ ρ e v τ) := by
+  have h₁ := hx.expand_inv hstd.std (by decide) (fun fuel hf =>
+    at_loc (case_normal_more_shape (isList_withLoc l hu) hc has hat hne hcl hna hk hf))
+  obtain ⟨te, ce, lc, hte, hce, hcase⟩ := h₁.if_inv (isList_ofList _ _) rfl
+  rcases hcase with ⟨hr', _⟩ | ⟨_, _, er, hr', her, rfl⟩
+  · cases hr'
+  · cases hr'
+    obtain ⟨kee, hkee, trule⟩ := memv_test hstd hte
+    rw [built_eq] at hce her
+    obtain ⟨bes, hbes, rule⟩ := begin_meaning hstd (isList_ofList none body) hne hnd hce
+    exact ⟨kee, bes, er, hkee, hbes, her, fun σ ρ mv kv σ₁ qv σ₂ m σ₃ hl hkv hlit happ =>
+      have ht := trule σ ρ mv kv σ₁ qv σ₂ m σ₃ hl hkv hlit happ
+      ⟨fun hm v τ hb => Means.cond_true ht hm (rule σ₃ ρ v τ hb),
+       fun hm v τ hrest => Means.cond_false ht hm hrest⟩⟩
+
+/-- `(case key ((datum …) => receiver) clause₂ …)`: the test as above; if `m` is not `#f` the receiver
+expression is evaluated, then the key again, and the receiver is applied to the key's value; if `m` is
+`#f` the receiver expression is NOT evaluated and the value is that of `(case key clause₂ …)`. -/
+theorem case_arrow_more_meaning {env l₁ rest l key c as atoms a r clauses e} (hstd : StdSyn env)
+    (hu : IsList rest (key :: c :: clauses)) (hc : IsList c [as, a, r]) (has : IsList as atoms)
+    (hat : atoms ≠ []) (ha : isSym "=>" a = true) (hcl : clauses ≠ [])
+    (hk : ∀ ks, IsList key ks → ks = []) (hr : Ordinary env r)
+    (hx : XE env (.pair (.sym "case" l₁) rest l) e) :
+    ∃ kee re kee' er, XE env key kee ∧ XE env r re ∧ XE env key kee' ∧
+      XE env (.pair (.sym "case" l) (Datum.ofList none (key :: clauses)) l) er ∧
+      ∀ σ ρ mv kv σ₁ qv σ₂ m σ₃, σ.lookup ρ "memv" = some mv → Means σ ρ kee kv σ₁ →
+        readLiteral σ₁ (L l atoms) = (.ok qv, σ₂) → MeansApply σ₂ mv [kv, qv] m σ₃ →
+        (m.truthy = true → ∀ fv σ₄ kv' σ₅ v τ, Means σ₃ ρ re fv σ₄ → Means σ₄ ρ kee' kv' σ₅ →
+          MeansApply σ₅ fv [kv'] v τ → Means σ ρ e v τ) ∧
+        (m.truthy = false → ∀ v τ, Means σ₃ ρ er v τ → Means σ ρ e v τ) := by
+  have h₁ := hx.expand_inv hstd.std (by decide) (fun fuel hf =>
+    at_loc (case_arrow_more_shape (isList_withLoc l hu) hc has hat ha hcl hk hf))
+  obtain ⟨te, ce, lc, hte, hce, hcase⟩ := h₁.if_inv (isList_ofList _ _) rfl
+  rcases hcase with ⟨hr', _⟩ | ⟨_, _, er, hr', her, rfl⟩
+  · cases hr'
+  · cases hr'
+    obtain ⟨kee, hkee, trule⟩ := memv_test hstd hte
+    obtain ⟨re, kee', hre, hkee', crule⟩ := receiver_key_call hce hr
+    rw [built_eq] at her
+    exact ⟨kee, re, kee', er, hkee, hre, hkee', her, fun σ ρ mv kv σ₁ qv σ₂ m σ₃ hl hkv hlit happ =>
+      have ht := trule σ ρ mv kv σ₁ qv σ₂ m σ₃ hl hkv hlit happ
+      ⟨fun hm fv σ₄ kv' σ₅ v τ hf hk' happ' => Means.cond_true ht hm (crule σ₃ ρ fv σ₄ kv' σ₅ v τ hf hk' happ'),
+       fun hm v τ hrest => Means.cond_false ht hm hrest⟩⟩
+
+/-- `(case key ((datum …) => receiver))`, the last clause: the template tests
+`(not (null? (memv key '(datum …))))` — `not`, `null?`, `memv`, the key, the data, then the three
+applications; if the final value `b` is not `#f` the receiver expression is evaluated, the key again, and
+the receiver applied to it; otherwise the receiver expression is NOT evaluated and the model's value is
+`Void`. -/
+theorem case_arrow_last_meaning {env l₁ rest l key c as atoms a r e} (hstd : StdSyn env)
+    (hu : IsList rest [key, c]) (hc : IsList c [as, a, r]) (has : IsList as atoms) (hat : atoms ≠ [])
+    (ha : isSym "=>" a = true) (hk : ∀ ks, IsList key ks → ks = []) (hr : Ordinary env r)
+    (hx : XE env (.pair (.sym "case" l₁) rest l) e) :
+    ∃ kee re kee', XE env key kee ∧ XE env r re ∧ XE env key kee' ∧
+      ∀ σ ρ nv nl mv kv σ₁ qv σ₂ m σ₃ n σ₄ b σ₅, σ.lookup ρ "not" = some nv → σ.lookup ρ "null?" = some nl →
+        σ.lookup ρ "memv" = some mv → Means σ ρ kee kv σ₁ → readLiteral σ₁ (L l atoms) = (.ok qv, σ₂) →
+        MeansApply σ₂ mv [kv, qv] m σ₃ → MeansApply σ₃ nl [m] n σ₄ → MeansApply σ₄ nv [n] b σ₅ →
+        (b.truthy = true → ∀ fv σ₆ kv' σ₇ v τ, Means σ₅ ρ re fv σ₆ → Means σ₆ ρ kee' kv' σ₇ →
+          MeansApply σ₇ fv [kv'] v τ → Means σ ρ e v τ) ∧
+        (b.truthy = false → Means σ ρ e .void σ₅) := by
+  have h₁ := hx.expand_inv hstd.std (by decide) (fun fuel hf =>
+    at_loc (case_arrow_shape (isList_withLoc l hu) hc has hat ha hk hf))
+  obtain ⟨te, ce, lc, hte, hce, hcase⟩ := h₁.if_inv (isList_ofList _ _) rfl
+  rcases hcase with ⟨_, rfl⟩ | ⟨_, _, _, hr', _⟩
+  · -- `(not (null? (memv …)))`
+    obtain ⟨fn, an, ln, hfn, han, rfl⟩ := hte.call_inv (isList_ofList _ _)
+      (by intro s l' hs; cases hs; exact ⟨by decide, hstd.not_⟩)
+    have := hfn.sym_inv; subst this
+    cases han with
+    | cons hnl t =>
+      cases t
+      obtain ⟨fl, al, ll, hfl, hal, rfl⟩ := hnl.call_inv (isList_ofList _ _)
+        (by intro s l' hs; cases hs; exact ⟨by decide, hstd.null⟩)
+      have := hfl.sym_inv; subst this
+      cases hal with
+      | cons hmv t' =>
+        cases t'
+        obtain ⟨kee, hkee, trule⟩ := memv_test hstd hmv
+        obtain ⟨re, kee', hre, hkee', crule⟩ := receiver_key_call hce hr
+        refine ⟨kee, re, kee', hkee, hre, hkee', fun σ ρ nv nl mv kv σ₁ qv σ₂ m σ₃ n σ₄ b σ₅ hnot hnull hmemv hkv hlit
+          hm hn hb => ?_⟩
+        have hme : Means σ.erase ρ _ m σ₃ := means_erase.mpr
+          (trule σ ρ mv kv σ₁ qv σ₂ m σ₃ hmemv hkv hlit hm)
+        have hne' : Means σ.erase ρ _ n σ₄ :=
+          Means.call (l := ll) (Means.sym (l := l) (by rw [Store.erase_lookup]; exact hnull))
+            (MeansList.one (means_erase.mpr hme)) hn
+        have hbe : Means σ ρ _ b σ₅ :=
+          Means.call (l := ln) (Means.sym (l := l) hnot) (MeansList.one hne') hb
+        exact ⟨fun htv fv σ₆ kv' σ₇ v τ hf hk' happ =>
+          Means.cond_true hbe htv (crule σ₅ ρ fv σ₆ kv' σ₇ v τ hf hk' happ),
+          fun htv => Means.cond_void hbe htv⟩
+  · cases hr'
+
 end Ruschm.C05Meaning
